@@ -663,6 +663,7 @@ private:
 
           _populate_formatted_log_message(transit_event, message_format.data());
           _populate_formatted_named_args(transit_event, arg_names);
+          _apply_runtime_metadata_to_named_args_event(transit_event);
         }
         else
         {
@@ -679,6 +680,7 @@ private:
 
           _populate_formatted_log_message(transit_event, message_format.data());
           _populate_formatted_named_args(transit_event, arg_names);
+          _apply_runtime_metadata_to_named_args_event(transit_event);
         }
       }
     }
@@ -1687,6 +1689,27 @@ private:
       _options.error_notifier(error);
     }
 #endif
+  }
+
+  /**
+   * A message logged with runtime metadata can use named arguments in its format as well. The
+   * runtime metadata has to be applied to it like to any other such message, otherwise the event
+   * keeps the LogWithRuntimeMetadata type, which is never written to the sinks. The file, line and
+   * function travel as the last three arguments, they are not named arguments of the message
+   */
+  void _apply_runtime_metadata_to_named_args_event(TransitEvent* transit_event)
+  {
+    if (transit_event->macro_metadata->event() != MacroMetadata::Event::LogWithRuntimeMetadata)
+    {
+      return;
+    }
+
+    _apply_runtime_metadata(transit_event);
+
+    if (transit_event->named_args && (transit_event->named_args->size() >= 3))
+    {
+      transit_event->named_args->resize(transit_event->named_args->size() - 3);
+    }
   }
 
   void _apply_runtime_metadata(TransitEvent* transit_event)
